@@ -186,9 +186,10 @@ class Check:
         file of their own so that a broken equality does not hide the other theorems): every `#print axioms thm` line is an
         obligation; discharged iff its axioms are allowed"""
         files = [audit_file]
-        tie_file = audit_file.replace(".lean", "_tie.lean")
-        if os.path.exists(os.path.join(LEAN, "Audit", tie_file)):
-            files.append(tie_file)
+        for suffix in ("_tie.lean", "_extra.lean"):      # Tie-A equalities; theorems about code beyond the property's anchors
+            extra_file = audit_file.replace(".lean", suffix)
+            if os.path.exists(os.path.join(LEAN, "Audit", extra_file)):
+                files.append(extra_file)
         self.obligations, self.discharged = [], []
         axioms_used = set()
         for af in files:
